@@ -89,6 +89,11 @@ def Schema.directives : Schema → List DirectiveDef
   | .directive d :: rest => d :: Schema.directives rest
   | _ :: rest => Schema.directives rest
 
+/-- `ctx.directives.get(name)`: also a `HashMap::from_iter`, last definition wins
+    (`schema.directive_by_name` is first-match; they agree when directive names are unique) -/
+def Schema.directiveMapGet (s : Schema) (n : Name) : Option DirectiveDef :=
+  s.directives.reverse.find? (·.name == n)
+
 def Schema.typeMapGet (s : Schema) (n : Name) : Option TypeDef :=
   s.types.reverse.find? (·.name == n)
 
